@@ -84,8 +84,8 @@ pub fn run(ctx: &Ctx) -> i32 {
         }
         return 0;
     }
-    let e_max_lvh = ctx.tier.pick(64u64, 512);
-    let e_max_hvh = ctx.tier.pick(64u64, 256);
+    let e_max_lvh = ctx.tier.pick(64u64, 768);
+    let e_max_hvh = ctx.tier.pick(64u64, 320);
 
     // ---- set level, exhaustive
     par_cases(ctx, &mon, "setlevel", e_max_lvh.max(e_max_hvh), |cc, _rng, l| {
@@ -155,7 +155,7 @@ pub fn run(ctx: &Ctx) -> i32 {
     });
 
     // ---- sampled large values (around powers of two and the skip-list points)
-    let n_samp = ctx.tier.pick(200_000u64, 10_000_000);
+    let n_samp = ctx.tier.pick(200_000u64, 40_000_000);
     par_cases(ctx, &mon, "sampled", 16, |_cc, rng, l| {
         let per = n_samp / 16;
         for _ in 0..per {
